@@ -246,7 +246,7 @@ def verify_function(c: Contract, timeout_s: float = 10.0, solve: bool = True) ->
     rep.partial_raises = sorted(set(ex.partial_raises))
     rep.inlined = ex.inlined
     if solve:
-        solve_all(rep.obligations, timeout_s)
+        solve_all(rep.obligations, timeout_s * getattr(c, "timeout_factor", 1.0))
     rep.seconds = time.time() - t0
     return rep
 
